@@ -334,6 +334,26 @@ func fStep(prof FProfile) func(t *rapid.T, w *world.World) world.Action {
 				id := rapid.SampledFrom(f.Order).Draw(t, "tochain")
 				return world.Action{Kind: world.KRelay, Consumer: id, Relay: &world.RelaySpec{Op: "timeout", Dir: rapid.SampledFrom([]string{"p2c", "p2c", "c2p"}).Draw(t, "todir"), K: rapid.IntRange(1, 3).Draw(t, "tok")}}
 			}
+		case "errack":
+			// a byzantine consumer answers the next validator-set packet with an error acknowledgement; an honest
+			// relayer carries it to the provider
+			for _, id := range f.Order {
+				p := f.Paths[id]
+				pending := false
+				for _, pr := range p.P2C {
+					if !pr.Delivered && !pr.TimedOut && pr.Packet.SourcePort == "provider" {
+						pending = true
+					}
+				}
+				if pending && !p.C.Halted && rapid.IntRange(0, 1).Draw(t, "errackhere") == 0 {
+					w.Agenda = append(w.Agenda,
+						world.Action{Kind: world.KBlock, Chain: id, Dt: 1e9},
+						world.Action{Kind: world.KBlock, Chain: id, Dt: 1e9},
+						world.Action{Kind: world.KRelay, Consumer: id, Relay: &world.RelaySpec{Op: "ack", Dir: "p2c", K: 1}},
+						world.Action{Kind: world.KBlock, Dt: 2e9})
+					return world.Action{Kind: world.KRawAck, Chain: id}
+				}
+			}
 		case "unjail":
 			obs := w.ObserveVals()
 			var jailed []string
